@@ -8,9 +8,9 @@ CONSTANTS
  MaxFaults = 3
  MaxSeeks = 1
  Conc = 8
- FixLeak = FALSE
+ FixLeak = TRUE
  PrioAsc = TRUE
- Rs = {1, 2}
+ Rs = {2}
  Prios = {0}
  Meths = {"GET"}
  Waive <- WaiveNone
